@@ -83,6 +83,12 @@ def check_table(insts, viol, stats):
         ok = 0 <= err <= TOL
         if not ok:
             k2 = f"sqrt_eps_endpoint:{c['ch']}" if is_eps_endpoint(c) and 0 <= err <= 3e-7 else f"channel_map:{key}"
+            if k2.startswith("sqrt_eps_endpoint"):
+                # the implementation deliberately adds 1e-14 under the square roots (gradient stability), i.e. sqrt(1e-14) = 1e-7
+                # at gamma = 1: a tolerance matter, not a departure from the documented channel -> counted, not a violation
+                stats.setdefault("stability_eps_endpoint_cases", 0)
+                stats["stability_eps_endpoint_cases"] += 1
+                continue
             viol.append(Violation(key=k2, detail=f"the channel of op.kraus_matrices() (sum K (x) conj K) differs from the documented channel by {err:.3g} for "
                                   f"{c['ch']}({pstr(c)})", replay={"instance": c, "kraus": [np.round(k, 9).tolist().__repr__() for k in K]}))
         else:
@@ -242,6 +248,7 @@ def run(tier, seed):
     for (ci, v), o in zip(owner, res):
         exact.setdefault(ci, {})[v] = qm(o, M_EV)
     n_exec = n_cmp = 0
+    eps_endpoint_rho = 0
     kernels, samples, phys_checked = {}, [], 0
     circ_ok = set()
     for ci, c in enumerate(cases):
@@ -283,6 +290,9 @@ def run(tier, seed):
                 if not 0 <= err <= TOL:
                     good = False
                     key = (f"sqrt_eps_endpoint:{eps_case[0]}" if eps_case and 0 <= err <= 3e-7 else f"rho:{'+'.join(chans)}:n={n}:{what.split('(')[0]}")
+                    if key.startswith("sqrt_eps_endpoint"):
+                        eps_endpoint_rho += 1        # see above: 1e-7 regularisation at the endpoint, tolerance matter
+                        continue
                     viol.append(Violation(key=key, detail=f"default.mixed {what} differs from the exact Kraus-sum evolution by {err:.3g} on {desc}",
                                           replay={"case": c, "desc": desc, "expected": np.round(exp, 10).tolist().__repr__(), "got": np.round(got, 10).tolist().__repr__()}))
             # physicality of the implementation's own output (numeric)
